@@ -2,7 +2,8 @@
 # usage: confirm_seed.sh <Cxx> [check ids...]  -- confirm a sub-agent's seeded change independently, then run our check(s) on it
 set -u
 id=$1; shift
-checks=${@:-$id}
+base=${id%b}
+checks=${@:-$base}
 src=/tmp/seed
 wt=/tmp/confirm/$id
 feat=$(python3 -c "import json;print(json.load(open('$src/$id.meta.json')).get('features',''))" 2>/dev/null)
@@ -28,7 +29,7 @@ cp $src/$id.patch.diff /verif/seeded/$id/patch.diff
 cp $src/$id.demo.rs /verif/seeded/$id/demo.rs
 res=""
 for c in $checks; do
-  out=$(/verif/lib/try_mutant.sh $c /verif/seeded/$id/patch.diff 2>&1 | head -1)
+  out=$(/verif/lib/try_mutant_iso.sh $c /verif/seeded/$id/patch.diff 2>&1 | head -1)
   echo "check $c on the change: $out"
   res="$res $c:[$out]"
 done
@@ -37,6 +38,6 @@ import json,sys
 id,t1,d1,d2,res=sys.argv[1:6]
 m=json.load(open('/tmp/seed/%s.meta.json'%id))
 m['confirmed_by_us']={'existing_test_suites_failing_with_change':int(t1),'demo_with_change':d1,'demo_without_change':d2,
-  'our_checks':res.strip(),'how':'lib/confirm_seed.sh: fresh worktree of /repo HEAD, patch applied, cargo test --offline; demo added; src reverted; then lib/try_mutant.sh on /repo (applied, checked, reverted)'}
+  'our_checks':res.strip(),'how':'lib/confirm_seed.sh: fresh worktree of /repo HEAD, patch applied, cargo test --offline; demo added; src reverted; then lib/try_mutant_iso.sh (scratch worktree + scratch copy of /verif; /repo untouched)'}
 json.dump(m,open('/verif/seeded/%s/meta.json'%id,'w'),indent=1)
 PY
